@@ -1,4 +1,5 @@
-import JjModel.Lemmas.RevsetHeads
+import JjModel.Lemmas.RevsetFork
+import JjModel.Lemmas.RevsetLatest
 /-!
   C19 lemmas, part 7: soundness of the engine model `eval` against the plan semantics
   `denoteR`, by structural recursion over the proved part of `ResolvedExpression`.
@@ -7,7 +8,7 @@ namespace JjModel.Revset
 
 /-- The part of `ResolvedExpression` for which every combinator has a proved specification,
 with all commit literals inside the graph.  Not covered (modelled, compared with jj on every
-run, but without a soundness proof): `Reachable`, `HeadsRange`, `ForkPoint`, `Latest`. -/
+run, but without a soundness proof): `Reachable`, `HeadsRange`. -/
 def OkR (g : Graph) : RExpr → Prop
   | .commits l => ∀ x ∈ l, x < g.size
   | .ancestors h _ _ _ => OkR g h
@@ -19,10 +20,10 @@ def OkR (g : Graph) : RExpr → Prop
   | .union a b => OkR g a ∧ OkR g b
   | .inter a b => OkR g a ∧ OkR g b
   | .diff a b => OkR g a ∧ OkR g b
+  | .forkPoint x => OkR g x
+  | .latest x _ => OkR g x
   | .reachable _ _ => False
   | .headsRange _ _ _ _ => False
-  | .forkPoint _ => False
-  | .latest _ _ => False
 
 /-- what is proved about one evaluated plan -/
 structure EvalOk (g : Graph) (r : RExpr) : Prop where
@@ -231,9 +232,40 @@ theorem eval_spec (g : Graph) (hw : g.WF) : (r : RExpr) → OkR g r → EvalOk g
     · intro p
       simp only [eval, denoteR]
       rw [mem_diffDesc _ _ iha.desc ihb.desc, iha.mem, ihb.mem]
+  | .forkPoint x, hok => by
+    have ih := eval_spec g hw x hok
+    have hs := forkPoint_spec g hw (eval g x) ih.lt
+    have hm : ∀ p, p ∈ eval g (.forkPoint x) ↔ denoteR g (.forkPoint x) p := by
+      intro p
+      simp only [eval, denoteR]
+      rw [hs.2]
+      simp only [ForkPointOf, HeadsOf, ih.mem]
+    refine ⟨?_, ?_, hm⟩
+    · simp only [eval]; exact hs.1
+    · intro p hp
+      rw [hm] at hp
+      simp only [denoteR] at hp
+      obtain ⟨⟨y, hy⟩, hh, _⟩ := hp
+      have := (hh y hy).le hw.topo
+      have := ih.lt y ((ih.mem y).2 hy)
+      omega
+  | .latest x n, hok => by
+    have ih := eval_spec g hw x hok
+    have hm : ∀ p, p ∈ eval g (.latest x n) ↔ denoteR g (.latest x n) p := by
+      intro p
+      simp only [eval, denoteR]
+      rw [mem_takeLatest g _ (desc_nodup ih.desc)]
+      simp only [LatestOf, ih.mem]
+    refine ⟨?_, ?_, hm⟩
+    · simp only [eval, takeLatest]
+      split
+      · simp [Desc]
+      · exact desc_sortDedupDesc _
+    · intro p hp
+      rw [hm] at hp
+      simp only [denoteR] at hp
+      exact ih.lt p ((ih.mem p).2 hp.1)
   | .reachable _ _, hok => absurd hok (by simp [OkR])
   | .headsRange _ _ _ _, hok => absurd hok (by simp [OkR])
-  | .forkPoint _, hok => absurd hok (by simp [OkR])
-  | .latest _ _, hok => absurd hok (by simp [OkR])
 
 end JjModel.Revset
